@@ -397,6 +397,28 @@ func run(r *vt.Run, t vt.TB, s spec) {
 			}
 			got2, gerr2 := readAllHandle(old)
 			old.Close()
+			// ... and one that was opened before the writer started and has
+			// not been used at all yet: its first transaction comes after the crash
+			e := filepath.Join(dir, "e.sqlite")
+			sqdb.Remove(e)
+			copyFile(base, e)
+			if baseJournal {
+				copyFile(base+"-journal", e+"-journal")
+			}
+			unused, uerr := sqlittle.Open(e)
+			if uerr != nil {
+				r.Harness(t, "open of the base state: %v", uerr)
+			}
+			overwrite(work, e)
+			os.Remove(e + "-journal")
+			if jerr == nil {
+				copyFile(work+"-journal", e+"-journal")
+			}
+			// (its very first call is a select, not a look at the catalogue)
+			var first4 [][]interface{}
+			ferr4 := unused.Select("t", func(row sqlittle.Row) { first4 = append(first4, append([]interface{}{}, row...)) }, "a", "b", "c")
+			got4, gerr4 := readAllHandle(unused)
+			unused.Close()
 			got, gerr := readAllSqlittle(a)
 			// a third reader arrives while another process holds a read lock
 			// on the shared range (another reader that is looking at the file
@@ -441,7 +463,27 @@ func run(r *vt.Run, t vt.TB, s spec) {
 				got  map[string][][]interface{}
 				err  error
 			}
-			for _, ob := range []observer{{"fresh handle", got, gerr}, {"handle opened before the crash", got2, gerr2}, {"fresh handle while another process holds a read lock", got3, gerr3}} {
+			if ferr4 == nil {
+				// the table t may have lost or gained rows, and column d; a, b, c are the first three columns
+				wrows, ok := want["t"]
+				bad := !ok || len(wrows) != len(first4)
+				for i := 0; !bad && i < len(wrows); i++ {
+					if len(wrows[i]) < 3 || !e1.SameRow(first4[i], wrows[i][:3]) {
+						bad = true
+					}
+				}
+				if bad {
+					r.Violation(t, cp, "unrecovered-state-read", "%s; handle opened before the crash whose first call comes after it: Select(t) succeeds with %d rows that are not the state SQLite recovers (%d rows)", where0, len(first4), len(wrows))
+					return
+				}
+				if mustSucceed {
+					r.Count("sqlittle-read", 1)
+				}
+			} else if mustSucceed {
+				r.Violation(t, cp, "error-without-hot-journal", "%s; handle opened before the crash whose first call comes after it: Select(t) fails (%v) although no transaction needs recovery", where0, ferr4)
+				return
+			}
+			for _, ob := range []observer{{"fresh handle", got, gerr}, {"handle opened before the crash", got2, gerr2}, {"fresh handle while another process holds a read lock", got3, gerr3}, {"handle opened before the crash and not used until after it", got4, gerr4}} {
 				got, gerr := ob.got, ob.err
 				where := where0 + "; " + ob.name
 				if gerr != nil {
